@@ -62,6 +62,7 @@ POOL = [
     ('h3', 'datetime', 'inauguration day, juneteenth und weihnachten', 'de-de', None, R1),
     ('s1', 'ip_address', 'ping 1.2.3.4 or ::1', 'en-us', None, None),
     ('b1', 'boolean', 'yes or no', 'en-us', None, None),
+    ('b2', 'boolean', 'Nope, thanks', 'en-us', None, None),
 ]
 POOL_BY_ID = {p[0]: p for p in POOL}
 # 2-thread drivers: (name, call ids, cold?, granularity, max preemption bound quick, thorough)
@@ -76,6 +77,8 @@ DRIVERS = [
     ('D8-cold-datetime-and-number', ('d5', 'n5'), True, 'coarse', 1, 1),
     ('D12-built-unused-datetime-two-dates', ('y1', 'y2'), 'built', 'calls', 0, 1),
     ('D13-warm-datetime-weekday-two-references', ('w1', 'w2'), False, 'coarse', 1, 1),
+    ('D14-warm-boolean-two-queries', ('b1', 'b2'), False, 'calls', 1, 2),
+    ('D15-warm-sequence-and-unit', ('s1', 'u2'), False, 'coarse', 1, 1),
     ('D9-warm-number-two-preemptions', ('n3', 'n4'), False, 'methods', 2, 2),
     ('D10-warm-percentage-number-two-preemptions', ('p1', 'n2'), False, 'methods', 2, 2),
     ('D11-warm-datetime-two-preemptions', ('d1', 'd4'), False, 'methods', 1, 2),
